@@ -296,9 +296,9 @@ fn check_settled(
       l.id.url == *from && l.final_url.as_deref() == Some(to.as_str())
     });
     let by_lockfile = world.lockfile.redirects.get(from) == Some(to);
-    let by_registry = from.starts_with("jsr:")
-      && to.starts_with(REGISTRY)
-      && !to.ends_with('/');
+    // (where exactly the export value of the manifest leads is C07's subject:
+    // a value such as "/." legally joins to the registry root)
+    let by_registry = from.starts_with("jsr:") && to.starts_with(REGISTRY);
     if !(by_loader || by_lockfile || by_registry) {
       out.violation(
         "C03",
